@@ -12,6 +12,10 @@ mod fmt;
 mod c05;
 mod c07;
 mod c08;
+#[cfg(feature = "train")]
+mod c10;
+#[cfg(feature = "train")]
+mod c09;
 mod c15;
 mod c19;
 mod c16;
@@ -35,6 +39,14 @@ fn main() {
         ("c03", "replay") => c03::replay(&args[3]),
         ("c04", "search") => c04::search(),
         ("c04", "replay") => c04::replay(&args[3]),
+        #[cfg(feature = "train")]
+        ("c09", "search") | ("c11", "search") => c09::search(),
+        #[cfg(feature = "train")]
+        ("c09", "replay") | ("c11", "replay") => c09::replay(&args[3]),
+        #[cfg(feature = "train")]
+        ("c10", "search") => c10::search(),
+        #[cfg(feature = "train")]
+        ("c10", "replay") => c10::replay(&args[3]),
         ("c16", "search") => c16::search(),
         ("c16", "replay") => c16::replay(&args[3]),
         ("c19", "search") => c19::search(),
